@@ -921,7 +921,7 @@ func main() {
 			"searchdocs": chSD, "proxymerge": chPx}
 		for _, l := range lines {
 			kind := strings.Fields(l + " .")[0]
-			if kind == "sys" || kind == "cluster" || kind == "sysbig" {
+			if kind == "sys" || kind == "cluster" || kind == "sysbig" || kind == "sysdist" {
 				sysLines = append(sysLines, l)
 			} else if ch := byKind[kind]; ch != nil {
 				ch.Add(l, runOp(l), true, "replay")
@@ -949,6 +949,7 @@ func main() {
 		stage("proxy", func() { genProxy(g, chPx, orcPx, rep, o.Pick(400, 5000)) })
 		stage("sys", func() {
 			lines := append(genSys(g, o), genCluster(g, o)...)
+			lines = append(lines, genDist(g, o)...)
 			// posting lists longer than one LID block (65536 entries) of a sealed fraction
 			lines = append(lines, fmt.Sprintf("sysbig n=%d k=%d", o.Pick(70000, 140000), o.Pick(3, 5)))
 			runSys(lines, chReal, orcSys, rep, o)
